@@ -509,7 +509,8 @@ class MuxBody(Body):
         return super().__getattr__('flush')()
 
     def close(self):
-        self._stream.close()
+        # The stream is shared by all documents; only this body ends here.
+        self._stream.flush()
         return super().__getattr__('close')()
 
 
